@@ -6,23 +6,21 @@ From GM Require Import Base.Res Base.StrGro Gen.SrcConsts Model.GroCodec Model.G
 Import ListNotations.
 
 (* Crash points at operation granularity.  The operations of a run are
-     write_ops recs = OpRec r1; ...; OpRec rn; OpCount; OpSeek; OpBox; OpNl
-   (writeline per record - the first one also writes title and count line -, then the steps of
-   close(): count check / seek + back-fill of the count, seek_atom(natoms), box text, newline).
-   For every run in the domain of C13 and every j <= n + 2 - before each record (j = 0 is the
-   empty file that open() created), before close (j = n), after the count step (n + 1) and after
-   the seek (n + 2), i.e. every crash point before the box text is written - the bytes on disk are
-   rejected by the reader with IOError:  count not declared: the count line is blank until the
-   back-fill and int() fails;  declared or back-filled: seek_atom(natoms) lands at or beyond the
-   end of the file and readline() returns ''.
-   NOT covered, deliberately: j = n + 3 (box text written, final newline missing).  That file IS
-   accepted by the reader (model and implementation agree, K), with the complete file's records
-   and box; see docs/design_notes/C14.md. *)
+     write_ops recs = OpRec r1; ...; OpRec rn; OpCount; OpSeek; OpBox
+   (writeline per record - the first one also writes title and count line -, then the file
+   operations of close(): count check / seek + back-fill of the count, seek_atom(natoms), and ONE
+   write of the box text together with its end of line).
+   For every run in the domain of C13 and EVERY PROPER PREFIX of its operation list - before each
+   record (j = 0 is the empty file that open() created), before close (j = n), after the count
+   step (n + 1), after the seek (n + 2) - the bytes on disk are rejected by the reader with
+   IOError:  count not declared: the count line is blank until the back-fill and int() fails;
+   declared or back-filled: seek_atom(natoms) lands at or beyond the end of the file and
+   readline() returns ''. *)
 Theorem C14_crash_points : forall (c : wconf) (w d : nat) (vel : bool) (recs : list grec),
   run_ok c w d vel recs ->
   exists f, write_gro c recs = Ok f /\
     ((Z.of_nat (length f) < SEEK_LIMIT)%Z ->
-     forall j, j <= length recs + 2 ->
+     forall j, j < length (write_ops recs) ->
        exists fj, file_after c (firstn j (write_ops recs)) = Ok fj /\ read_gro fj = Err EIO).
 Proof. exact crash_points. Qed.
 Print Assumptions C14_crash_points.
@@ -73,12 +71,14 @@ Proof.
   - repeat constructor; simpl; try lia; try reflexivity.
 Qed.
 
-(* every crash point of the two runs, by evaluation: rejected up to j = 5, accepted from j = 6 *)
+(* every prefix of the operation lists of the two runs, by evaluation: the six proper prefixes
+   are rejected, the complete run (j = 6) is accepted *)
 Example C14_nonvacuous_run : forall b,
+  length (write_ops [ex_rec 1; ex_rec 2; ex_rec 3]) = 6 /\
   map (fun j => match file_after (ex_conf b) (firstn j (write_ops [ex_rec 1; ex_rec 2; ex_rec 3])) with
-                | Ok f => is_ok (read_gro f) | Err _ => true end) [0; 1; 2; 3; 4; 5; 6; 7]
-  = [false; false; false; false; false; false; true; true].
-Proof. intros [|]; vm_compute; reflexivity. Qed.
+                | Ok f => is_ok (read_gro f) | Err _ => true end) [0; 1; 2; 3; 4; 5; 6]
+  = [false; false; false; false; false; false; true].
+Proof. intros [|]; vm_compute; split; reflexivity. Qed.
 
 (* every byte prefix of the complete file of the undeclared run: rejected up to the start of the
    box line (byte 218), and the accepted ones return the three records *)
